@@ -74,13 +74,14 @@ def lake_env_lean(relfile, timeout=1200):
 
 
 # ---------------------------------------------------------------- factgen
-def build_factgen():
+def build_factgen(pid):
+    """each property has its own extractor binary: go/factgen/cmd/<id lower>/ (shared lib: go/factgen/fg)"""
     os.makedirs(os.path.join(WORK, "bin"), exist_ok=True)
-    with Lock("factgen-build"):
-        e = goenv()
-        e["GOFLAGS"] = ""
-        rc, out = sh(["go", "build", "-o", os.path.join(WORK, "bin", "factgen"), "."],
-                     cwd=os.path.join(VERIF, "go", "factgen"), env=e, timeout=600)
+    e = goenv()
+    e["GOFLAGS"] = ""
+    e["GOTOOLCHAIN"] = "local"
+    rc, out = sh(["go", "build", "-o", os.path.join(WORK, "bin", "fg_" + pid.lower()), "./cmd/" + pid.lower()],
+                 cwd=os.path.join(VERIF, "go", "factgen"), env=e, timeout=600)
     return rc, out
 
 
@@ -88,7 +89,7 @@ def run_factgen(pid):
     os.makedirs(os.path.join(WORK, "facts"), exist_ok=True)
     lean_out = os.path.join(LEAN, "Arc", "Generated", pid + ".lean")
     json_out = os.path.join(WORK, "facts", pid + ".json")
-    rc, out = sh([os.path.join(WORK, "bin", "factgen"), REPO, pid, lean_out, json_out], timeout=300)
+    rc, out = sh([os.path.join(WORK, "bin", "fg_" + pid.lower()), REPO, lean_out, json_out], timeout=300)
     return rc, out, json_out
 
 
@@ -358,7 +359,7 @@ def run_property(pid, tier, seed, replay=None):
 
     # 1. facts
     if spec.get("factgen", False):
-        rc, out = build_factgen()
+        rc, out = build_factgen(pid)
         if rc != 0:
             broken.append(("factgen-build", out[-800:]))
         else:
@@ -523,13 +524,14 @@ def setup():
     """MANIFEST.setup_cmd: build everything from files on disk, warm the caches."""
     t0 = time.time()
     os.makedirs(os.path.join(WORK, "bin"), exist_ok=True)
-    rc, out = build_factgen()
-    print("factgen build:", "ok" if rc == 0 else out)
-    ok = rc == 0
+    ok = True
     pids = sorted(os.path.basename(p)[:-3] for p in glob.glob(os.path.join(VERIF, "props", "C*.py")))
     for pid in pids:
         spec, _ = load_spec(pid)
         if spec.get("factgen"):
+            rc, out = build_factgen(pid)
+            if rc != 0:
+                print(f"factgen build {pid}: {out}"); ok = False; continue
             rc, out, _ = run_factgen(pid)
             if rc != 0:
                 print(f"factgen {pid}: {out}"); ok = False
